@@ -173,6 +173,15 @@ def check_union(members, none_pos, spelling, col, inputs_u=UNMARSHAL_INPUTS, inp
                               {"members": list(members), "none_pos": none_pos, "spelling": spelling, "direction": direction, "input": src},
                               f"{direction}({expr}, {src}) -> {_d(got)}, reference (member #{idx}) -> {_d(want)}",
                               bucket=f"{'raises' if got[0] == 'exc' else 'returns'}|want-{'raises' if want[0] == 'exc' else 'returns'}|{got[1] if got[0] == 'exc' else ''}"[:100])
+            # the public entry point (the statement's own observation point) must say the same as the routine
+            col.ev()
+            k2, v2 = tl.call(tl.unmarshal, T, x) if direction == "unmarshal" else tl.call(tl.marshal, x, t=T)
+            got2 = ("ok", snapshot(v2)) if k2 == "ok" else ("exc", tl.exc_name(v2))
+            if got2 != want:
+                col.violation(f"{direction}-first-acceptor",
+                              {"members": list(members), "none_pos": none_pos, "spelling": spelling, "direction": direction, "input": src, "api": True},
+                              f"typelib.{direction}({expr}, {src}) -> {_d(got2)}, reference (member #{idx}) -> {_d(want)}",
+                              bucket=f"api|{'raises' if got2[0] == 'exc' else 'returns'}|want-{'raises' if want[0] == 'exc' else 'returns'}|{got2[1] if got2[0] == 'exc' else ''}"[:100])
     col.label(f"len:{len(members)}")
     col.label(f"spelling:{spelling}")
     col.label("none:absent" if none_pos is None else ("none:last" if none_pos == len(members) else "none:not-last"))
